@@ -410,7 +410,7 @@ KEYS_CTRL = ["\t", "\t\t", "\r", "\x03", "\x1b[A", "\x1b[B", "\x1b[C", "\x1b[D",
 def pty_session(rnd):
     keys = ""
     try:
-XX
+        s = ptydrv.LineSession(files={"a b": "", "aa": "", "d/x": "", "q'r": ""}, env={"A": "va", "PATH": HELPERS})
     except ptydrv.Unsettled as e:
         return {"unsettled": str(e)}
     events = []
